@@ -216,6 +216,9 @@ class FakeSerial(_Conn):
         return self._do_write(data)
 
     def flush(self):
+        # pyserial: every operation on a closed port raises PortNotOpenError (a SerialException, an OSError)
+        if not self.is_open:
+            raise _real_serial.PortNotOpenError()
         return None
 
     def close(self):
